@@ -17,7 +17,9 @@ if tag:
         sites = []
     if sites:
         third = tag.endswith('3')
-        extra = (('Four' if third else 'Two') + ' changes for this property have ALREADY been collected; they sit at:\n' +
+        if tag.endswith('4'):
+            third = False
+        extra = (('Six' if tag.endswith('4') else 'Four' if third else 'Two') + ' changes for this property have ALREADY been collected; they sit at:\n' +
                  ''.join('  - %s\n' % s for s in sites) +
                  'Do NOT touch those functions again. Choose other mechanisms the guarantee depends on - supporting code counts '
                  '(helpers in graph_utils.py, molecule.py, utils.py, selectors.py, parser_utils.py, truncating_formatter.py, '
@@ -25,6 +27,17 @@ if tag:
                  'wires things together). Changes whose effect depends on state left behind by an EARLIER call in the same process '
                  '(a cache hoisted to module or instance scope, a default argument that is mutated, an object shared instead of copied) '
                  'or on two sites that each look fine alone are especially welcome.\n' + extra)
+        fourth = tag.endswith('4')
+        if fourth:
+            extra += ('For this round look in particular at: (1) the warnings, reports and errors the property promises (a message that is no '
+                      'longer emitted, emitted once instead of per item, at a lower level, with another type, or an error that has become a '
+                      'warning) and the conditions under which they fire; (2) "optimisations" whose result differs only for rare shapes (early '
+                      'exit, caching by a key that is almost unique, sorting once instead of per group, set instead of list, numpy vectorisation '
+                      'with a different rounding or NaN behaviour); (3) Python and numpy semantics (integer vs float division, float equality, '
+                      'truthiness of 0 / empty containers / numpy arrays, stability of sorts, dict and set iteration order, shallow vs deep '
+                      'copies, default arguments, swapped keyword arguments of the same type); (4) code paths only taken for large or unusual '
+                      'but legal inputs (more than 9999 atoms, several models, insertion codes, negative numbers, non-protein molecules, empty '
+                      'molecules). The change must still break THIS property.\n')
         if third:
             extra += ('For this round look in particular at: (1) how bin/martinize2 wires the pipeline together - option parsing and defaults, '
                       'the order of processors, what is passed from one step to the next, what happens with several chains / several molecules / '
